@@ -19,7 +19,7 @@ GenActs(s) ==
   \cup [op : {"rok"}, s : {s}, f : {"x", "send", "close"}]   \* f: what the handler does with the frame
                                                             \* (its own Send / Close are recorded by it)
   \cup [op : {"wfault"}, s : {s}, n : 0..2]
-  \cup [op : {"rfault"}, s : {s}, k : {"eof", "err", "timeout", "herr", "dl", "temp"}]
+  \cup [op : {"rfault"}, s : {s}, k : {"eof", "err", "timeout", "herr", "dl", "temp", "c:unexp", "c:w:deadline", "c:netclosed", "h:qclosed", "h:w:eof", "h:short"}]
 
 Held == "hold" \in DOMAIN last /\ last.hold
 
